@@ -91,12 +91,14 @@ def run(ctx):
     cat = catalogue(ctx, rng, cd)
     lines, rcases, meta = [], [], {}
 
-    def add(cid, data, expect_content, what, layout, paths):
+    NOCK = codec.dparams_str({"forceIgnoreChecksum": 1})
+
+    def add(cid, data, expect_content, what, layout, paths, nock=False):
         meta[cid] = (data, expect_content, what, layout)
         cap = len(expect_content) + 64 if expect_content is not None else 4096
         for pth in paths:
-            lines.append("D %s|%s %s - - %s %d" % (cid, pth, pth, codec.hx(data), cap))
-        rcases.append((cid, "nostrict", None, data))
+            lines.append("D %s|%s %s %s - %s %d" % (cid, pth, pth, NOCK if nock else "-", codec.hx(data), cap))
+        rcases.append((cid, "nostrict" + (",nocheck" if nock else ""), None, data))
 
     PATHS = ["oneshot", "stream:1:0", "stream:7:3", "stream:0:0", "continue"]
     for li, (name, f, x) in enumerate(cat):
@@ -109,6 +111,12 @@ def run(ctx):
             g = rng.randbytes(rng.choice([1, 2, 3, 4, 5, 9]))
             add("L%d.tail%d" % (li, j), f + g, None, "garbage", name, ["oneshot"])
         has_ck = (f[4] >> 2) & 1
+        if has_ck:
+            # checksum verification switched off (ZSTD_d_forceIgnoreChecksum): the 4 checksum bytes still belong to the frame
+            for k in range(max(1, len(f) - 6), len(f)):
+                add("L%d.nockcut%d" % (li, k), f[:k], None, "prefix", name + " nocheck", PATHS, nock=True)
+            add("L%d.nockfull" % li, f, x, "complete", name + " nocheck", ["oneshot", "stream:1:0", "stream:7:3", "continue"], nock=True)
+            add("L%d.nock2" % li, f + f, x + x, "complete", name + " nocheck x2", ["oneshot", "stream:1:0", "stream:0:0"], nock=True)
         if has_ck:
             for bit in range(32):
                 d = bytearray(f)
